@@ -240,7 +240,17 @@ pub fn main() {
             let bound: usize = args.get(3).map(|s| s.parse().unwrap()).unwrap_or(4);
             let shard: usize = args.get(4).map(|s| s.parse().unwrap()).unwrap_or(0);
             let nshards: usize = args.get(5).map(|s| s.parse().unwrap()).unwrap_or(1);
-            let r = bounded::run(name, bound, shard, nshards);
+            // a panic that escapes a check is itself a finding: "returns normally" (C01), with the history that was being
+            // executed (Sess records it before every call into the engine)
+            std::panic::set_hook(Box::new(|info| { bounded::note_panic(info.to_string()); }));
+            let r = match catch_unwind(AssertUnwindSafe(|| bounded::run(name, bound, shard, nshards))) {
+                Ok(r) => r,
+                Err(_) => {
+                    let (hist, msg) = bounded::last_call();
+                    json!({"check": name, "bound": bound, "cases": 1, "nontrivial": 1, "samples": [], "domain": "aborted by a panic",
+                           "failures": [{"clause": "C01 every in-contract call sequence returns normally (the engine panicked)", "history": hist, "observed": msg}]})
+                }
+            };
             let ud = std::env::var("XDG_DATA_HOME").unwrap();
             if ud.starts_with("/tmp/riti-verif-ud-") { let _ = std::fs::remove_dir_all(&ud); }
             println!("{r}");
